@@ -512,7 +512,7 @@ TOP = 'http://h/d/e/top.css'
 LOCS = ['same', 'child', 'parent', 'sibling', 'absolute', 'root', 'rootfile', 'scheme']
 MEDIA = ['', 'print']
 AVAIL = ['present', 'missing']
-CONTENTS = ['rel', 'dotdot', 'dotdot2', 'abs', 'root', 'schemerel', 'qf', 'pct', 'namespace', 'fontface', 'media', 'charset', 'page', 'empty']
+CONTENTS = ['rel', 'dotdot', 'dotdot2', 'abs', 'root', 'schemerel', 'qf', 'pct', 'namespace', 'fontface', 'media', 'charset', 'page', 'twice', 'empty']
 EDGE_DEFAULT = ['same', '', 'present']
 CONTENT_DEFAULT = 'rel'
 MODES = [['resolve'], ['combine', False, None], ['combine', False, 'ascii'], ['combine', True, None], ['combine', True, 'ascii']]
@@ -567,6 +567,9 @@ def content_rules(kind, name):
         return 'utf-8', [style(f'{name}.png')]
     if kind == 'page':
         return None, [['page', '', [], [['@top-left', [['content', [['u', f'{name}.png']]]]]]]]
+    if kind == 'twice':
+        # the fallback-first idiom: the same property twice in one block, both declarations (and both URLs) are content
+        return None, [['style', name, [['background', [['u', f'img/{name}-old.png']]], ['background', [['u', f'img/{name}.png']]]]]]
     if kind == 'empty':
         return None, []
     raise ValueError(kind)
